@@ -147,10 +147,20 @@ class FindIdentifiers(_ast_util.NodeVisitor):
         inf = self.in_function
         self.in_function = True
 
+        args = node.args
+
+        argnames = [
+            arg_id(arg)
+            for arg in self._expand_tuples(
+                getattr(args, "posonlyargs", []) + args.args + args.kwonlyargs
+            )
+        ]
+        for arg in (args.vararg, args.kwarg):
+            if arg is not None:
+                argnames.append(arg_id(arg))
+
         local_ident_stack = self.local_ident_stack
-        self.local_ident_stack = local_ident_stack.union(
-            [arg_id(arg) for arg in self._expand_tuples(node.args.args)]
-        )
+        self.local_ident_stack = local_ident_stack.union(argnames)
         if islambda:
             self.visit(node.body)
         else:
